@@ -23,8 +23,9 @@ PROPS["C03"] = dict(
 )
 
 PROPS["C04"] = dict(
-    modules=["Proofs.C04"],
-    theorems=['Goflow.C04.xdrString_roundtrip', 'Goflow.C04.ip_roundtrip', 'Goflow.C04.unknown_record_skipped', 'Goflow.C04.unknown_flow_record'],
+    modules=["Proofs.C04", "Proofs.C04Roundtrip"],
+    theorems=['Goflow.C04.xdrString_roundtrip', 'Goflow.C04.ip_roundtrip', 'Goflow.C04.unknown_record_skipped', 'Goflow.C04.unknown_flow_record',
+              'Goflow.C04.flowRecord_roundtrip', 'Goflow.C04.counterRecord_roundtrip', 'Goflow.C04.sample_roundtrip', 'Goflow.C04.roundtrip', 'Goflow.C04.exampleDatagram_wf'],
     generators=[dict(name="C04", quick=2000, thorough=150000)],
     harness=["impl"],
 )
@@ -38,7 +39,7 @@ PROPS["C07"] = dict(
 
 PROPS["C10"] = dict(
     modules=["Proofs.C10"],
-    theorems=['Goflow.C10.parser_table_matches', 'Goflow.C10.guards_cover_indices', 'Goflow.C10.encap_preserves_outer', 'Goflow.C10.icmp_terminal', 'Goflow.C10.icmp_first_only', 'Goflow.C10.encap_rule', 'Goflow.C10.layer_sizes'],
+    theorems=['Goflow.C10.parser_table_matches', 'Goflow.C10.guards_cover_indices', 'Goflow.C10.encap_preserves_outer', 'Goflow.C10.icmp_terminal', 'Goflow.C10.icmp_first_only', 'Goflow.C10.encap_rule', 'Goflow.C10.encap_monotone', 'Goflow.C10.layer_sizes'],
     generators=[dict(name="C10", quick=150, thorough=10000)],
     harness=["impl"],
 )
@@ -92,10 +93,10 @@ PROPS["C13"] = dict(
 )
 
 PROPS["C14"] = dict(
-    modules=["Proofs.C14", "Proofs.C14Bits"],
+    modules=["Proofs.C14", "Proofs.C14Bits", "Proofs.C14BitsFull"],
     theorems=["Goflow.C14.key_function", "Goflow.C14.no_key", "Goflow.C14.custom_varint_readback", "Goflow.C14.custom_bytes_readback",
               "Goflow.C14.mapCustom_varint", "Goflow.C14.getBytes_total", "Goflow.C14.extract_aligned", "Goflow.C14.getBytes_aligned",
-              "Goflow.C14.getBytes_eq_extract_aligned"],
+              "Goflow.C14.getBytes_eq_extract_aligned", "Goflow.C14.getBytes_eq_extract", "Goflow.C14.toBits_shiftPass"],
     generators=[dict(name="C14", quick=42, thorough=1260)],
     harness=["impl"],
 )
